@@ -20,6 +20,9 @@ def declare(c):
                      'outside an episode nothing is sent', floor=2)
     c.rule('C14.R3', 'the tool position is tracked identically while disabled', floor=50)
     c.rule('C14.R4', 'streaming to SD or no matching action: returns False without any effect', floor=2)
+    c.rule('C14.R6', 'retraction / E-register typestate machine with the @-command actions in the environment: a disable '
+                     '(inside or outside an episode) and a later enable leave no obligation behind that the same program '
+                     'without @-commands would have honoured (owed recovery, E re-synchronisation)', floor=20)
     c.rule('C14.R5', 'the actions accepted by the configuration are exactly the actions dispatched', floor=1)
 
 
@@ -177,6 +180,9 @@ def path_rules(col, gcode, paths, I):
         if ('ExcludeRegionState', 'processLinearMoves') not in f.calls:
             continue
         col.instance('C14.R3', sig)
+        from .pathfacts import exact_tracking
+        for (fn, construct, msg) in exact_tracking(f, gcode):
+            col.report('C14.R3', fn, construct + ' while disabled', msg, detail={'entry': p.entry, 'decisions': f.decisions()})
         for axis, letter in (('X_AXIS', 'X'), ('Y_AXIS', 'Y'), ('Z_AXIS', 'Z')):
             aoid = '%s.position.%s' % (S_OID, axis)
             assume = {('fld', aoid, 'absoluteMode'): frozenset([True])} if gcode in ('G2', 'G3') else None
@@ -197,8 +203,33 @@ def path_rules(col, gcode, paths, I):
                                'tracked position ends at an intermediate arc sample')
 
 
+def machine_rule(ctx, tier):
+    """violations of the C04/C05 typestate machine that are only reachable through an @-command"""
+    from .retraction import explore
+    viol, stats = explore(ctx, ctx.model, tier)
+    ctx.instance('C14.R6', 'states', n=stats['states'])
+    ctx.instance('C14.R6', 'transitions', n=stats['transitions'])
+    for i in range(min(400, stats['transitions'])):
+        ctx.distinct.add(('C14.R6', i))
+
+    def key(v):
+        return (v['kind'], v['func'], v['construct'])
+    plain = set(key(v) for v in viol if not any(t.startswith('at-') for t in v['trace']))
+    seen = set()
+    for v in viol:
+        k = key(v)
+        if k in plain or k in seen:
+            continue
+        seen.add(k)
+        ctx.report('C14.R6', v['func'], v['construct'],
+                   '%s; only reachable through an @-command, shortest program: %s%s'
+                   % (v['text'], ' , '.join(v['trace']), ('; step: ' + v['transition']) if v.get('transition') else ''),
+                   detail={'trace': list(v['trace']), 'transition': v.get('transition')})
+
+
 def run(ctx, tier):
     declare(ctx)
+    machine_rule(ctx, tier)
     I = make_interp(ctx.model, unroll=2 if tier == 'thorough' else 1)
     at_rules(ctx, I)
     consts_rule(ctx)
